@@ -136,6 +136,45 @@ def litMul (neg : Bool) (n : Nat) (k : IntTy) (ty : Ty) (other : Option (VTy × 
     else none
   | _ => none
 
+/-- `TypedPattern::compile` on a scalar: the match bit and the variable the pattern binds. A number pattern
+compares all bits, a range pattern uses the comparator twice (`!(x < lo) && !(x > hi)`). -/
+def patBits (p : Pat) (t : STy) (bs : List Bool) : Option (Bool × Option String) :=
+  match p, t, bs with
+  | .ident x, _, _ => some (true, some x)
+  | .bool true, .bool, [b] => some (b, none)
+  | .bool false, .bool, [b] => some (!b, none)
+  | .int n, .int k, _ =>
+    if k.inRange n then some (Arith.eqBits (intToBits n k.bits) bs, none) else none
+  | .range lo hi, .int k, _ =>
+    if k.inRange lo ∧ k.inRange hi then
+      let c1 := Arith.comparator bs k.signed (intToBits lo k.bits) k.signed
+      let c2 := Arith.comparator bs k.signed (intToBits hi k.bits) k.signed
+      some (!c1.1 && !c2.2, none)
+    else none
+  | _, _, _ => none
+
+/-- the last arm binds or ignores the value: the match is exhaustive whatever the other arms are -/
+def lastIsCatchAll : Arms → Bool
+  | .nil => false
+  | .cons (.ident _) _ .nil => true
+  | .cons _ _ rest => lastIsCatchAll rest
+
+/-- the variables an arm is compiled with: the state after the scrutinee plus the pattern's binding -/
+def armEnv (bind : Option String) (ts : STy) (sb : List Bool) (benv1 : BEnv) : BEnv :=
+  match bind with
+  | some x => (x, ts, sb) :: benv1
+  | none => benv1
+
+/-- `env.pop()` after an arm: the pattern's binding goes out of scope -/
+def armOut (bind : Option String) (enve : BEnv) : BEnv :=
+  match bind with
+  | some _ => enve.drop 1
+  | none => enve
+
+/-- state of the arm loop of `ExprEnum::Match`: `has_prev_match`, the muxed value (`none`: still the initial
+zeros), the muxed panic (relative to the state after the scrutinee) and the muxed variables -/
+abbrev ArmSt := Bool × Option (VTy × List Bool) × P × BEnv
+
 mutual
 /-- type, bits, panic (the first one raised inside `e`, if any) and variables after an expression -/
 def bitExpr (benv : BEnv) : Expr → Option (VTy × List Bool × P × BEnv)
@@ -254,7 +293,40 @@ def bitExpr (benv : BEnv) : Expr → Option (VTy × List Bool × P × BEnv)
     | none => none
   /- `()` -/
   | .tuple .nil => some (.unit, [], none, benv)
+  /- `match` on a scalar with a catch-all last arm: every arm is compiled from the state after the scrutinee; value,
+  panic and variables of the first arm whose pattern matches are selected -/
+  | .match_ scrut arms =>
+    match bitExpr benv scrut with
+    | some (.s ts, sb, ps, env1) =>
+      if lastIsCatchAll arms then
+        match bitArms env1 ts sb arms (false, none, none, env1) with
+        | some (_, some (t, bs), pa, envF) => some (t, bs, seqP ps pa, envF)
+        | _ => none
+      else none
+    | _ => none
   | _ => none
+/-- the arm loop: `s = !has_prev_match && is_match` selects the arm -/
+def bitArms (benv1 : BEnv) (ts : STy) (scrut : List Bool) : Arms → ArmSt → Option ArmSt
+  | .nil, st => some st
+  | .cons p e rest, (hasPrev, ret, pacc, envAcc) =>
+    match patBits p ts scrut with
+    | none => none
+    | some (m, bind) =>
+      match bitExpr (armEnv bind ts scrut benv1) e with
+      | none => none
+      | some (te, be, pe, enve) =>
+        let envOut := armOut bind enve
+        let s := !hasPrev && m
+        match ret with
+        | some (tr, rbits) =>
+          if tr = te then
+            bitArms benv1 ts scrut rest
+              (hasPrev || m, some (tr, if s then be else rbits), if s then pe else pacc, muxEnv s envOut envAcc)
+          else none
+        | none =>
+          bitArms benv1 ts scrut rest
+            (hasPrev || m, some (te, if s then be else List.replicate be.length false), if s then pe else pacc,
+              muxEnv s envOut envAcc)
 /-- the value of a statement list is that of its last statement -/
 def bitStmts (benv : BEnv) : StmtList → Option (VTy × List Bool × P × BEnv)
   | .nil => some (.unit, [], none, benv)
